@@ -187,7 +187,8 @@ SubjectOf(e) == IF e.op \in {"add", "put", "data"} THEN e.v ELSE -1
 \* independence: handles the call did not address keep their last observation
 OthersSame(e, written) ==
   \A h \in Handles \ written :
-     (HasObs(e, h) /\ lastobs[h].h = h) => Complete(ObsOf(e, h)) = Complete(lastobs[h])
+     \* (an observation that is inconsistent in itself - kid() against kids(), say - is reported for the handle it belongs to)
+     (HasObs(e, h) /\ ~Broken(ObsOf(e, h)) /\ lastobs[h].h = h) => Complete(ObsOf(e, h)) = Complete(lastobs[h])
 
 \* mirrored call on a twin: same return value and same visible state as the original's
 MirrorFails(e, o) ==
